@@ -78,14 +78,6 @@ Qed.
 Lemma lt_MAXF : forall x, Rabs x <= 1000000000000000000000000000000 -> Rabs x < MAXF.
 Proof. intros x H. rewrite MAXF_val. lra. Qed.
 
-Lemma no_ovf_small : forall x, Rabs x <= 4294967296 -> Rabs (rnd x) < MAXF.
-Proof.
-  intros x H. apply no_overflow with 4294967296.
-  - replace 4294967296 with (bpow radix2 32) by (simpl; lra). apply fmt_bpow; lia.
-  - rewrite MAXF_val; lra.
-  - exact H.
-Qed.
-
 (** exact operations: when the real result is representable and below the threshold *)
 Lemma fadd_exact : forall a b : f32, fin a -> fin b -> fmt (R32 a + R32 b) ->
   Rabs (R32 a + R32 b) < MAXF ->
@@ -382,8 +374,7 @@ Proof.
   rewrite <- Hfl, <- Ea in L, U.
   assert (Ha : (0 <= a < 16777216)%Z).
   { split.
-    - apply lt_IZR in U || idtac.
-      assert (H : (-1 < a)%Z) by (apply lt_IZR; lra). lia.
+    - assert (H : (-1 < a)%Z) by (apply lt_IZR; lra). lia.
     - apply lt_IZR. lra. }
   split; [exact Ha|].
   destruct (rnd_error y) as [eps [eta [He [Ht Hr]]]].
@@ -393,7 +384,7 @@ Proof.
     apply Rmult_le_compat; try apply Rabs_pos; unfold y; lra. }
   apply Rabs_le_inv in Hye. apply Rabs_le_inv in Ht.
   assert (Hd : -2 <= rnd y - y <= 2) by (rewrite Hr; lra).
-  apply Rabs_le. unfold y in Hd. lra.
+  apply Rabs_le. unfold y in *. lra.
 Qed.
 
 (** ** reachable counter values *)
@@ -417,4 +408,388 @@ Proof.
   revert H0. generalize (lfo_new fs). induction ops as [|o ops IH]; intros l Hl.
   - exact Hl.
   - cbn [fold_left]. apply IH. now apply step_acc_range.
+Qed.
+
+(** ** exact waveforms *)
+
+Lemma acc_R : forall a : Z, (0 <= a < 16777216)%Z -> 0 <= IZR a < 16777216.
+Proof. intros a [H1 H2]. split; [apply (IZR_le 0)|apply (IZR_lt a 16777216)]; assumption. Qed.
+
+(** ramp = acc / 2^24, exactly *)
+Lemma ramp_exact : forall l, (0 <= pa_acc l < 16777216)%Z ->
+  fin (pa_ramp LTOT l) /\ R32 (pa_ramp LTOT l) = IZR (pa_acc l) / 16777216.
+Proof.
+  intros l Ha. assert (Hr := acc_R _ Ha).
+  unfold pa_ramp. rewrite two_tot_val.
+  destruct (fin_R32_of_Z_small (pa_acc l)) as [Va Fa]; [lia|].
+  destruct (fin_R32_of_Z_small 16777216) as [Vc Fc]; [lia|].
+  destruct (fdiv_exact _ _ Fa Fc) as [V F].
+  - rewrite Vc. lra.
+  - rewrite Va, Vc. apply (fmt_div_pow2 _ 24); [lia|lia|reflexivity].
+  - rewrite Va, Vc. apply lt_MAXF, Rabs_le. lra.
+  - rewrite Va, Vc in V. split; assumption.
+Qed.
+
+Lemma upsaw_exact : forall l, (0 <= pa_acc l < 16777216)%Z ->
+  fin (lfo_get l UpSaw) /\ R32 (lfo_get l UpSaw) = 2 * (IZR (pa_acc l) / 16777216) - 1.
+Proof.
+  intros l Ha. assert (Hr := acc_R _ Ha).
+  destruct (ramp_exact l Ha) as [Fr Vr].
+  cbn [lfo_get]. unfold lfo_upsaw.
+  destruct (fmul_exact _ _ Fr fin_f_2) as [Vm Fm].
+  - rewrite Vr, R32_f_2.
+    replace (IZR (pa_acc l) / 16777216 * 2) with (IZR (pa_acc l) / IZR 8388608) by lra.
+    apply (fmt_div_pow2 _ 23); [lia|lia|reflexivity].
+  - rewrite Vr, R32_f_2. apply lt_MAXF, Rabs_le. lra.
+  - rewrite Vr, R32_f_2 in Vm.
+    destruct (fsub_exact _ _ Fm fin_f_1) as [Vs Fs].
+    + rewrite Vm, R32_f_1.
+      replace (IZR (pa_acc l) / 16777216 * 2 - 1)
+        with (IZR (pa_acc l - 8388608) / IZR 8388608) by (rewrite minus_IZR; lra).
+      apply (fmt_div_pow2 _ 23); [lia|lia|reflexivity].
+    + rewrite Vm, R32_f_1. apply lt_MAXF, Rabs_le. lra.
+    + split; [exact Fs|]. rewrite Vs, Vm, R32_f_1. lra.
+Qed.
+
+Lemma downsaw_exact : forall l, (0 <= pa_acc l < 16777216)%Z ->
+  lfo_get l DownSaw = fneg (lfo_get l UpSaw) /\
+  R32 (lfo_get l DownSaw) = 1 - 2 * (IZR (pa_acc l) / 16777216).
+Proof.
+  intros l Ha. split; [reflexivity|].
+  destruct (upsaw_exact l Ha) as [_ V].
+  change (lfo_get l DownSaw) with (fneg (lfo_get l UpSaw)).
+  rewrite R32_fneg, V. lra.
+Qed.
+
+Lemma square_exact : forall l, (0 <= pa_acc l < 16777216)%Z ->
+  lfo_get l Square = if (pa_acc l <? 8388608)%Z then f_1 else f_m1.
+Proof.
+  intros l Ha. assert (Hr := acc_R _ Ha).
+  destruct (ramp_exact l Ha) as [Fr Vr].
+  cbn [lfo_get].
+  destruct (Z.ltb_spec (pa_acc l) 8388608) as [H|H].
+  - apply IZR_lt in H.
+    assert (E : flt (pa_ramp LTOT l) f_half = true).
+    { apply flt_true; [exact Fr|exact fin_f_half|]. rewrite Vr, R32_f_half. lra. }
+    rewrite E. reflexivity.
+  - apply IZR_le in H.
+    assert (E : flt (pa_ramp LTOT l) f_half = false).
+    { apply flt_false; [exact Fr|exact fin_f_half|]. rewrite Vr, R32_f_half. lra. }
+    rewrite E. reflexivity.
+Qed.
+
+Lemma triangle_exact : forall l, (0 <= pa_acc l < 16777216)%Z ->
+  fin (lfo_get l Triangle) /\
+  R32 (lfo_get l Triangle) =
+    if (pa_acc l <? 4194304)%Z then 4 * (IZR (pa_acc l) / 16777216)
+    else if (pa_acc l <? 12582912)%Z then 2 - 4 * (IZR (pa_acc l) / 16777216)
+    else 4 * (IZR (pa_acc l) / 16777216) - 4.
+Proof.
+  intros l Ha. assert (Hr := acc_R _ Ha).
+  destruct (ramp_exact l Ha) as [Fr Vr].
+  cbn [lfo_get].
+  destruct (fmul_exact _ _ Fr fin_f_4) as [Vm Fm].
+  { rewrite Vr, R32_f_4.
+    replace (IZR (pa_acc l) / 16777216 * 4) with (IZR (pa_acc l) / IZR 4194304) by lra.
+    apply (fmt_div_pow2 _ 22); [lia|lia|reflexivity]. }
+  { rewrite Vr, R32_f_4. apply lt_MAXF, Rabs_le. lra. }
+  rewrite Vr, R32_f_4 in Vm.
+  set (raw := fmul (pa_ramp LTOT l) f_4) in *.
+  destruct (Z.ltb_spec (pa_acc l) 4194304) as [H1|H1].
+  - apply IZR_lt in H1.
+    assert (E : flt raw f_1 = true).
+    { apply flt_true; [exact Fm|exact fin_f_1|]. rewrite Vm, R32_f_1. lra. }
+    rewrite E. split; [exact Fm|]. rewrite Vm. lra.
+  - apply IZR_le in H1.
+    assert (E : flt raw f_1 = false).
+    { apply flt_false; [exact Fm|exact fin_f_1|]. rewrite Vm, R32_f_1. lra. }
+    rewrite E.
+    destruct (Z.ltb_spec (pa_acc l) 12582912) as [H2|H2].
+    + apply IZR_lt in H2.
+      assert (E3 : flt raw f_3 = true).
+      { apply flt_true; [exact Fm|exact fin_f_3|]. rewrite Vm, R32_f_3. lra. }
+      rewrite E3.
+      destruct (fsub_exact _ _ fin_f_2 Fm) as [Vs Fs].
+      * rewrite Vm, R32_f_2.
+        replace (2 - IZR (pa_acc l) / 16777216 * 4)
+          with (IZR (8388608 - pa_acc l) / IZR 4194304) by (rewrite minus_IZR; lra).
+        apply (fmt_div_pow2 _ 22); [lia|lia|reflexivity].
+      * rewrite Vm, R32_f_2. apply lt_MAXF, Rabs_le. lra.
+      * split; [exact Fs|]. rewrite Vs, Vm, R32_f_2. lra.
+    + apply IZR_le in H2.
+      assert (E3 : flt raw f_3 = false).
+      { apply flt_false; [exact Fm|exact fin_f_3|]. rewrite Vm, R32_f_3. lra. }
+      rewrite E3.
+      destruct (fsub_exact _ _ Fm fin_f_4) as [Vs Fs].
+      * rewrite Vm, R32_f_4.
+        replace (IZR (pa_acc l) / 16777216 * 4 - 4)
+          with (IZR (pa_acc l - 16777216) / IZR 4194304) by (rewrite minus_IZR; lra).
+        apply (fmt_div_pow2 _ 22); [lia|lia|reflexivity].
+      * rewrite Vm, R32_f_4. apply lt_MAXF, Rabs_le. lra.
+      * split; [exact Fs|]. rewrite Vs, Vm, R32_f_4. lra.
+Qed.
+
+(** ** table indexing *)
+
+Lemma sine_table_length : length sine_table = 1024%nat.
+Proof. vm_compute; reflexivity. Qed.
+
+Lemma index_range : forall l, (0 <= pa_acc l < 16777216)%Z ->
+  pa_index LTOT LIDX l = (pa_acc l / 16384)%Z /\ (0 <= pa_index LTOT LIDX l < 1024)%Z.
+Proof.
+  intros l Ha. unfold pa_index. rewrite frac_bits_val.
+  rewrite Z.shiftr_div_pow2 by lia. change (2 ^ 14)%Z with 16384%Z.
+  split; [reflexivity|]. split.
+  - apply Z.div_pos; lia.
+  - apply Z.div_lt_upper_bound; lia.
+Qed.
+
+Lemma lfo_get_no_panic : forall l, (0 <= pa_acc l < 16777216)%Z -> lfo_get_ok l = true.
+Proof.
+  intros l Ha. destruct (index_range l Ha) as [_ Hi].
+  unfold lfo_get_ok, tbl_ok. rewrite sine_table_length, LUT_val.
+  set (i := pa_index LTOT LIDX l) in *.
+  assert (Hj := Z.mod_pos_bound (i + 1) 1024 ltac:(lia)).
+  change (Z.of_nat 1024) with 1024%Z.
+  rewrite !andb_true_iff. repeat split;
+    try (apply Z.leb_le; lia); apply Z.ltb_lt; lia.
+Qed.
+
+(** fraction = (acc mod 2^14) / 2^14, exactly, in [0, 1) *)
+Lemma fraction_exact : forall l, (0 <= pa_acc l < 16777216)%Z ->
+  fin (pa_fraction LTOT LIDX l) /\ 0 <= R32 (pa_fraction LTOT LIDX l) < 1.
+Proof.
+  intros l Ha. unfold pa_fraction. rewrite frac_bits_val.
+  change (2 ^ 14)%Z with 16384%Z. change (16384 - 1)%Z with 16383%Z.
+  rewrite land_mask14.
+  assert (Hm := Z.mod_pos_bound (pa_acc l) 16384 ltac:(lia)).
+  set (m := (pa_acc l mod 16384)%Z) in *.
+  assert (Hr : 0 <= IZR m < 16384).
+  { split; [apply (IZR_le 0)|apply (IZR_lt m 16384)]; lia. }
+  destruct (fin_R32_of_Z_small m) as [Va Fa]; [lia|].
+  destruct (fin_R32_of_Z_small 16384) as [Vc Fc]; [lia|].
+  destruct (fdiv_exact _ _ Fa Fc) as [V F].
+  - rewrite Vc. lra.
+  - rewrite Va, Vc. apply (fmt_div_pow2 _ 14); [lia|lia|reflexivity].
+  - rewrite Va, Vc. apply lt_MAXF, Rabs_le. lra.
+  - rewrite Va, Vc in V. split; [exact F|]. rewrite V. lra.
+Qed.
+
+(** ** range of the interpolated sine *)
+
+(** one f32 interpolation [y0 + (y1 - y0) * t] between table values in [-1, 1], for a
+    fraction [t] in [0, 1]: no overflow, and the real value is three nested roundings *)
+Lemma interp_value : forall y0 y1 t : f32, fin y0 -> fin y1 -> fin t ->
+  -1 <= R32 y0 <= 1 -> -1 <= R32 y1 <= 1 -> 0 <= R32 t <= 1 ->
+  fin (linear_interp y0 y1 t) /\
+  R32 (linear_interp y0 y1 t) = rnd (R32 y0 + rnd (rnd (R32 y1 - R32 y0) * R32 t)).
+Proof.
+  intros y0 y1 t F0 F1 Ft B0 B1 Bt. unfold linear_interp.
+  assert (f2 : fmt 2) by (apply (fmt_int 2); lia).
+  assert (fm2 : fmt (-2)) by (apply (fmt_int (-2)); lia).
+  assert (HD : -2 <= rnd (R32 y1 - R32 y0) <= 2) by (apply rnd_bounds; auto; lra).
+  destruct (fsub_correct y1 y0 F1 F0) as [Vd Fd].
+  { apply lt_MAXF, Rabs_le. lra. }
+  set (D := rnd (R32 y1 - R32 y0)) in *.
+  assert (HP : -2 <= rnd (D * R32 t) <= 2).
+  { apply rnd_bounds; auto. split; nra. }
+  destruct (fmul_correct _ t Fd Ft) as [Vp Fp].
+  { rewrite Vd. apply lt_MAXF, Rabs_le. lra. }
+  rewrite Vd in Vp.
+  assert (f3 : fmt 3) by (apply (fmt_int 3); lia).
+  assert (fm3 : fmt (-3)) by (apply (fmt_int (-3)); lia).
+  assert (HS : -3 <= rnd (R32 y0 + rnd (D * R32 t)) <= 3) by (apply rnd_bounds; auto; lra).
+  destruct (fadd_correct y0 _ F0 Fp) as [Vs Fs].
+  { rewrite Vp. apply lt_MAXF, Rabs_le. lra. }
+  rewrite Vp in Vs. split; assumption.
+Qed.
+
+(** monotonicity in the fraction: the value at [t] lies between the value at 0 (which is
+    [y0]) and the value at 1 *)
+Lemma interp_between : forall y0 y1 t : f32, fin y0 -> fin y1 -> fin t ->
+  -1 <= R32 y0 <= 1 -> -1 <= R32 y1 <= 1 -> 0 <= R32 t <= 1 ->
+  fin (linear_interp y0 y1 t) /\
+  Rmin (R32 y0) (R32 (linear_interp y0 y1 f_1)) <= R32 (linear_interp y0 y1 t)
+    <= Rmax (R32 y0) (R32 (linear_interp y0 y1 f_1)).
+Proof.
+  intros y0 y1 t F0 F1 Ft B0 B1 Bt.
+  destruct (interp_value y0 y1 t F0 F1 Ft B0 B1 Bt) as [Fr Vr].
+  destruct (interp_value y0 y1 f_1 F0 F1 fin_f_1 B0 B1) as [_ Ve].
+  { rewrite R32_f_1. lra. }
+  rewrite R32_f_1 in Ve.
+  split; [exact Fr|]. rewrite Vr, Ve.
+  set (D := rnd (R32 y1 - R32 y0)).
+  set (F := fun s => rnd (R32 y0 + rnd (D * s))).
+  assert (Hmono : forall u v, D * u <= D * v -> F u <= F v).
+  { intros u v H. unfold F. apply rnd_le. apply Rplus_le_compat_l. now apply rnd_le. }
+  assert (HF0 : F 0 = R32 y0).
+  { unfold F. rewrite Rmult_0_r, rnd_0, Rplus_0_r. apply rnd_id, fmt_R32. }
+  change (Rmin (R32 y0) (F 1) <= F (R32 t) <= Rmax (R32 y0) (F 1)).
+  rewrite <- HF0.
+  destruct (Rle_or_lt 0 D) as [HD|HD].
+  - assert (H1 : F 0 <= F (R32 t)) by (apply Hmono; nra).
+    assert (H2 : F (R32 t) <= F 1) by (apply Hmono; nra).
+    generalize (Rmin_l (F 0) (F 1)) (Rmax_r (F 0) (F 1)). lra.
+  - assert (H1 : F (R32 t) <= F 0) by (apply Hmono; nra).
+    assert (H2 : F 1 <= F (R32 t)) by (apply Hmono; nra).
+    generalize (Rmin_r (F 0) (F 1)) (Rmax_l (F 0) (F 1)). lra.
+Qed.
+
+(** the sweep: in every cell both end points and the interpolation at fraction 1 are
+    finite and inside [-1, 1] *)
+Definition in_unit (x : f32) : bool := is_finite x && fle f_m1 x && fle x f_1.
+
+Definition cell_ok (t : list f32) (i : nat) : bool :=
+  let y0 := nth i t f_0 in
+  let y1 := nth (Z.to_nat ((Z.of_nat i + 1) mod 1024)) t f_0 in
+  in_unit y0 && in_unit y1 && in_unit (linear_interp y0 y1 f_1).
+
+Lemma sine_cells_ok : forallb (cell_ok sine_table) (seq 0 1024) = true.
+Proof. vm_compute; reflexivity. Qed.
+
+Lemma in_unit_spec : forall x, in_unit x = true -> fin x /\ -1 <= R32 x <= 1.
+Proof.
+  intros x H. unfold in_unit in H. rewrite !andb_true_iff in H.
+  destruct H as [[Fx H1] H2]. split; [exact Fx|].
+  apply fle_true in H1; [|exact fin_f_m1|exact Fx].
+  apply fle_true in H2; [|exact Fx|exact fin_f_1].
+  rewrite R32_f_m1 in H1. rewrite R32_f_1 in H2. lra.
+Qed.
+
+Lemma sine_range : forall l, (0 <= pa_acc l < 16777216)%Z ->
+  fin (lfo_get l Sine) /\ -1 <= R32 (lfo_get l Sine) <= 1.
+Proof.
+  intros l Ha. destruct (index_range l Ha) as [_ Hi].
+  destruct (fraction_exact l Ha) as [Ft Bt].
+  cbn [lfo_get]. rewrite LUT_val.
+  set (i := pa_index LTOT LIDX l) in *.
+  assert (Hc : cell_ok sine_table (Z.to_nat i) = true).
+  { apply (proj1 (forallb_forall _ _) sine_cells_ok). apply in_seq. lia. }
+  unfold cell_ok in Hc. rewrite Z2Nat.id in Hc by lia.
+  fold (tbl sine_table i) in Hc. fold (tbl sine_table ((i + 1) mod 1024)) in Hc.
+  cbv zeta in Hc. rewrite !andb_true_iff in Hc. destruct Hc as [[H0 H1] He].
+  apply in_unit_spec in H0, H1, He.
+  destruct H0 as [F0 B0]. destruct H1 as [F1 B1]. destruct He as [_ Be].
+  destruct (interp_between _ _ _ F0 F1 Ft B0 B1) as [Fr Br]; [lra|].
+  split; [exact Fr|].
+  set (y0 := tbl sine_table i) in *. set (y1 := tbl sine_table ((i + 1) mod 1024)) in *.
+  revert Br. unfold Rmin, Rmax.
+  destruct (Rle_dec (R32 y0) (R32 (linear_interp y0 y1 f_1))); lra.
+Qed.
+
+Lemma lfo_range : forall l w, (0 <= pa_acc l < 16777216)%Z ->
+  fin (lfo_get l w) /\ -1 <= R32 (lfo_get l w) <= 1.
+Proof.
+  intros l w Ha. assert (Hr := acc_R _ Ha). destruct w.
+  - now apply sine_range.
+  - destruct (triangle_exact l Ha) as [F V]. split; [exact F|]. rewrite V.
+    destruct (Z.ltb_spec (pa_acc l) 4194304) as [H1|H1].
+    + apply IZR_lt in H1. lra.
+    + apply IZR_le in H1. destruct (Z.ltb_spec (pa_acc l) 12582912) as [H2|H2].
+      * apply IZR_lt in H2. lra.
+      * apply IZR_le in H2. lra.
+  - destruct (upsaw_exact l Ha) as [F V]. split; [exact F|]. rewrite V. lra.
+  - destruct (upsaw_exact l Ha) as [F V]. destruct (downsaw_exact l Ha) as [E V'].
+    split; [rewrite E; now apply fin_fneg|]. rewrite V'. lra.
+  - rewrite (square_exact l Ha). destruct (pa_acc l <? 8388608)%Z.
+    + split; [exact fin_f_1|]. rewrite R32_f_1. lra.
+    + split; [exact fin_f_m1|]. rewrite R32_f_m1. lra.
+Qed.
+
+(** ** set_frequency: the increment *)
+
+(** the increment is the truncation of the once-rounded quotient [2^24 f / fs] (the product
+    [2^24 * f] is exact) *)
+Lemma increment_value : forall l f, fin f -> fin (pa_fs l) ->
+  100 <= R32 (pa_fs l) <= 192000 -> 0 <= R32 f <= R32 (pa_fs l) ->
+  let X := 16777216 * R32 f / R32 (pa_fs l) in
+  0 <= X <= 16777216 /\ 0 <= rnd X <= 16777216 /\
+  pa_inc (lfo_step l (LSetFreq f)) = Zfloor (rnd X).
+Proof.
+  intros l f Ff Ffs Hfs Hf X.
+  cbn [lfo_step]. unfold pa_set_frequency. cbn [pa_inc]. rewrite two_tot_val.
+  set (fs := pa_fs l) in *.
+  destruct (fin_R32_of_Z_small 16777216) as [Vc Fc]; [lia|].
+  destruct (fmul_exact (of_Z 16777216) f Fc Ff) as [Vm Fm].
+  { rewrite Vc. replace 16777216 with (bpow radix2 24) by (simpl; lra).
+    apply fmt_scale; [lia|apply fmt_R32]. }
+  { rewrite Vc. apply lt_MAXF, Rabs_le. lra. }
+  rewrite Vc in Vm.
+  assert (Hq : 0 <= R32 f / R32 fs <= 1).
+  { split.
+    - apply Rmult_le_reg_r with (R32 fs); [lra|].
+      replace (R32 f / R32 fs * R32 fs) with (R32 f) by (field; lra). lra.
+    - apply Rmult_le_reg_r with (R32 fs); [lra|].
+      replace (R32 f / R32 fs * R32 fs) with (R32 f) by (field; lra). lra. }
+  assert (EX : X = 16777216 * (R32 f / R32 fs)) by (unfold X; field; lra).
+  assert (HX : 0 <= X <= 16777216) by (rewrite EX; lra).
+  assert (HR : 0 <= rnd X <= 16777216).
+  { apply rnd_bounds; [apply fmt_0|apply (fmt_int 16777216); lia|exact HX]. }
+  destruct (fdiv_correct _ fs Fm Ffs) as [Vd Fd].
+  { lra. }
+  { rewrite Vm. fold X. apply lt_MAXF, Rabs_le. lra. }
+  rewrite Vm in Vd. fold X in Vd.
+  split; [exact HX|]. split; [exact HR|].
+  rewrite to_u32_fin by exact Fd. rewrite Vd.
+  assert (H1 : (Ztrunc (IZR 0) <= Ztrunc (rnd X))%Z) by (apply Ztrunc_le; lra).
+  assert (H2 : (Ztrunc (rnd X) <= Ztrunc (IZR 16777216))%Z) by (apply Ztrunc_le; lra).
+  rewrite Ztrunc_IZR in H1, H2.
+  rewrite <- (Ztrunc_floor (rnd X)) by lra. unfold U32_MAX. lia.
+Qed.
+
+Lemma increment_bounds : forall l f, fin f -> fin (pa_fs l) ->
+  100 <= R32 (pa_fs l) <= 192000 -> 0 <= R32 f <= R32 (pa_fs l) ->
+  let inc := pa_inc (lfo_step l (LSetFreq f)) in
+  let X := 16777216 * R32 f / R32 (pa_fs l) in
+  (0 <= inc <= 16777216)%Z /\
+  X * (1 - / 8388608) - 1 < IZR inc <= X * (1 + / 8388608).
+Proof.
+  intros l f Ff Ffs Hfs Hf inc X.
+  destruct (increment_value l f Ff Ffs Hfs Hf) as [HX [HR Ei]].
+  fold X in HX, HR, Ei. fold inc in Ei.
+  assert (L := Zfloor_lb (rnd X)). assert (U := Zfloor_ub (rnd X)). rewrite <- Ei in L, U.
+  split.
+  - split.
+    + assert (H : (-1 < inc)%Z) by (apply lt_IZR; lra). lia.
+    + apply le_IZR. lra.
+  - destruct (Rlt_or_le X (/ 2)) as [Hs|Hb].
+    + (* below one half the increment is 0 *)
+      assert (Hh : rnd X <= / 2).
+      { rewrite <- (rnd_id (/ 2)).
+        - apply rnd_le. lra.
+        - replace (/ 2) with (bpow radix2 (-1)) by (simpl; lra). apply fmt_bpow. lia. }
+      assert (E0 : inc = 0%Z).
+      { rewrite Ei. apply Zfloor_imp. simpl. lra. }
+      rewrite E0. lra.
+    + (* otherwise the absolute error term is dominated by the relative one *)
+      destruct (rnd_error X) as [eps [eta [He [Ht Hr]]]].
+      assert (Hxe : Rabs (X * eps) <= X * / 16777216).
+      { rewrite Rabs_mult. rewrite (Rabs_pos_eq X) by lra.
+        apply Rmult_le_compat_l; lra. }
+      apply Rabs_le_inv in Hxe. apply Rabs_le_inv in Ht.
+      assert (Hd : - (X * / 8388608) <= rnd X - X <= X * / 8388608) by (rewrite Hr; lra).
+      lra.
+Qed.
+
+Lemma realised_frequency : forall l f, fin f -> fin (pa_fs l) ->
+  100 <= R32 (pa_fs l) <= 192000 -> 0 <= R32 f <= R32 (pa_fs l) ->
+  let inc := pa_inc (lfo_step l (LSetFreq f)) in
+  Rabs (IZR inc * R32 (pa_fs l) / 16777216 - R32 f)
+    <= R32 (pa_fs l) / 16777216 + R32 f / 8388608.
+Proof.
+  intros l f Ff Ffs Hfs Hf inc.
+  destruct (increment_bounds l f Ff Ffs Hfs Hf) as [_ HB]. fold inc in HB.
+  set (fs := R32 (pa_fs l)) in *.
+  set (X := 16777216 * R32 f / fs) in *.
+  set (k := fs / 16777216).
+  assert (Hk : 0 < k) by (unfold k; lra).
+  assert (Ef : R32 f = k * X) by (unfold k, X; field; lra).
+  replace (IZR inc * fs / 16777216) with (k * IZR inc) by (unfold k; field).
+  replace (fs / 16777216) with k by reflexivity.
+  rewrite Ef.
+  assert (H1 : k * (X * (1 - / 8388608) - 1) <= k * IZR inc)
+    by (apply Rmult_le_compat_l; lra).
+  assert (H2 : k * IZR inc <= k * (X * (1 + / 8388608)))
+    by (apply Rmult_le_compat_l; lra).
+  apply Rabs_le. lra.
 Qed.
